@@ -56,27 +56,40 @@ class _ChainMapPretendDict(ChainMap, dict):  # type: ignore
         dict.__setitem__(self, '__builtins__', builtins.__dict__)
         super().__init__(*maps)
 
-    def __missing__(self, key):
-        """Look in the dict instance itself when none of the maps has key.
 
-        Code running in a nested scope of an eval/exec (a comprehension,
-        lambda or function body) stores its global names straight into the
-        dict instance, by-passing the ChainMap. Without this it can't read
-        back what it just stored itself.
-        """
-        # dict.get, because dict.__getitem__ would come right back here.
+class _EvalNamespace(_ChainMapPretendDict):
+    """Throw-away namespace for a single eval of a py expression.
+
+    Use the same instance as both globals & locals of the eval.
+
+    Reads resolve from the maps (context, then imports), like the parent.
+    Names that the evaluating expression binds itself, with an assignment
+    expression, stay in this instance's own dict, never in the maps: at the
+    top level of the expression these arrive via __setitem__, from a nested
+    scope (comprehension, lambda) the interpreter stores straight into the
+    dict. Either way a subsequent read, from any scope, finds them there 1st,
+    as it would with a plain dict for globals.
+
+    Make a new one for each eval, and discard afterwards.
+    """
+
+    __slots__ = ()
+
+    def __getitem__(self, key):
+        """Get from own dict 1st, only then from the maps."""
+        # self as sentinel, because None is a perfectly good value.
         value = dict.get(self, key, self)
         if value is self:
-            raise KeyError(key)
+            return super().__getitem__(key)
         return value
 
-    def clear_own(self):
-        """Drop everything in the dict instance itself, except builtins.
+    def __setitem__(self, key, value):
+        """Set in own dict, not in maps."""
+        dict.__setitem__(self, key, value)
 
-        Does not touch the maps.
-        """
-        for key in [k for k in dict.keys(self) if k != '__builtins__']:
-            dict.__delitem__(self, key)
+    def __delitem__(self, key):
+        """Delete from own dict, not from maps."""
+        dict.__delitem__(self, key)
 
 
 class ImportVisitor(ast.NodeVisitor):
